@@ -518,6 +518,7 @@ func (e *Engine) VirtualizationUpdateResource(ctx context.Context, ID string, en
 	quota := resourceOpts.Quota
 	cpuMap := resourceOpts.CPU
 	numaNode := resourceOpts.NUMANode
+	remap := resourceOpts.Remap
 	// unlimited cpu
 	if quota == 0 || len(cpuMap) == 0 {
 		info, err := e.Info(ctx) // TODO can fixed in docker engine, support empty Cpusetcpus, or use cache to speed up
@@ -528,13 +529,15 @@ func (e *Engine) VirtualizationUpdateResource(ctx context.Context, ID string, en
 		for i := 0; i < info.NCPU; i++ {
 			cpuMap[strconv.Itoa(i)] = int64(e.config.Scheduler.ShareBase)
 		}
+		// all cores is not a binding: keep the quota of the cpu limit
+		remap = true
 		if quota == 0 {
 			quota = -1
 			numaNode = ""
 		}
 	}
 
-	newResource := makeResourceSetting(quota, memory, cpuMap, numaNode, resourceOpts.IOPSOptions, resourceOpts.Remap)
+	newResource := makeResourceSetting(quota, memory, cpuMap, numaNode, resourceOpts.IOPSOptions, remap)
 	updateConfig := dockercontainer.UpdateConfig{Resources: newResource}
 	_, err := e.client.ContainerUpdate(ctx, ID, updateConfig)
 	return err
